@@ -101,10 +101,12 @@ func splitSubPath(src string) (string, string) {
 	}
 
 	idx += offset
-	// In a longer run of slashes the last two are the separator: a package
-	// address whose own path ends in a slash ("https://example.com/dl/")
-	// prints with its sub-path as "https://example.com/dl///sub".
-	for idx+2 < stop && src[idx+2] == '/' {
+	// In a run of exactly three slashes the last two are the separator: a
+	// package address whose own path ends in a slash
+	// ("https://example.com/dl/") prints with its sub-path as
+	// "https://example.com/dl///sub". A longer run cannot come from a valid
+	// package address and is left to be rejected as an invalid sub-path.
+	if idx+2 < stop && src[idx+2] == '/' && (idx+3 >= stop || src[idx+3] != '/') {
 		idx++
 	}
 	subdir := src[idx+2:]
